@@ -294,6 +294,44 @@ def check_iter(c, rec):
                 raise Violation("interleaved_iteration", f"iterator {j} yields beyond the end; schedule={c['sched']}")
 
 
+# ---- Python scalars with integer tensors: the mathematical value, never a truncated scalar -----------------------------
+@st.composite
+def int_scalar_cases(draw):
+    shp = draw(gen.shapes(0, 3, 30))
+    n = int(np.prod(shp)) if shp else 1
+    return {"shape": shp, "v": [draw(st.integers(-6, 6)) for _ in range(n)], "idt": draw(st.sampled_from(["int64", "int32", "int8", "uint8", "bool"])),
+            "c": draw(st.sampled_from([0.5, 0.25, 1.5, -2.5, 4, 3, 0.1, -0.75])), "form": draw(st.sampled_from(SCALAR_FORMS_INT))}
+
+
+SCALAR_FORMS_INT = ["add", "radd", "sub", "rsub", "mul", "rmul", "div"]
+
+
+def check_int_scalar(c, rec):
+    dt = np.dtype(c["idt"])
+    vals = np.array(c["v"]).reshape(c["shape"])
+    if dt.kind == "u":
+        vals = np.abs(vals)
+    if dt.kind == "b":
+        vals = vals % 2
+    x = vals.astype(dt)
+    t = sg.Tensor(x.copy())
+    cc, f = c["c"], c["form"]
+    rec.nontrivial(not float(cc).is_integer())
+    rec.tag(c["idt"], f)
+    fn = {"add": lambda a: a + cc, "radd": lambda a: cc + a, "sub": lambda a: a - cc, "rsub": lambda a: cc - a,
+          "mul": lambda a: a * cc, "rmul": lambda a: cc * a, "div": lambda a: a / cc}[f]
+    try:
+        out = fn(t)
+    except Exception:  # noqa: BLE001  (nothing documents integer tensors with scalars: accept-or-raise)
+        rec.skip = "rejected_not_documented"
+        return
+    want = fn(x.astype(np.float64))
+    got = np.asarray(out.data, dtype=np.float64)
+    if got.shape != want.shape or np.abs(got - want).max(initial=0.0) > 1e-6 * max(1.0, np.abs(want).max(initial=0.0)):
+        raise Violation("value", f"{c['idt']} tensor {f} Python scalar {cc!r}: got {got.ravel()[:5].tolist()} instead of "
+                                 f"{want.ravel()[:5].tolist()} (x={x.ravel()[:5].tolist()})")
+
+
 # ---- half precision: mean follows NumPy/PyTorch (float32 intermediates), also for long reductions -----------
 @st.composite
 def f16_cases(draw):
@@ -425,5 +463,6 @@ def subchecks():
     subs.append(SubCheck("constructors", check_ctor, ctor_cases, quick=600, thorough=8000, shards_thorough=2))
     subs.append(SubCheck("iteration", check_iter, iter_cases, quick=300, thorough=5000, shards_thorough=2))
     subs.append(SubCheck("float16_mean", check_f16, f16_cases, quick=150, thorough=2000))
+    subs.append(SubCheck("int_tensor_scalar", check_int_scalar, int_scalar_cases, quick=300, thorough=3000))
     subs.append(SubCheck("dim_grid", check_dim_grid, None, enum=enum_dims, exhaustive=True, shards_quick=8, shards_thorough=16))
     return subs
